@@ -949,8 +949,8 @@ func cmdTrace(prop, opsPath, outPath string, pairsPerType int) {
 					width = 200
 				}
 				nLeft := pairsPerType / (len(amounts) + 1)
-				if nLeft < 6 {
-					nLeft = 6
+				if nLeft < 4 {
+					nLeft = 4
 				}
 				for _, b := range amounts {
 					for i := 0; i < nLeft; i++ {
